@@ -1,8 +1,8 @@
 (* Extraction of the core-language model (ExtrOcamlBasic only). *)
 Require Import ExtrOcamlBasic.
-Require Import NS.theories.F64 NS.theories.StrLib NS.theories.Lang.
+Require Import NS.theories.F64 NS.theories.StrLib NS.theories.Lang NS.theories.Spec.
 Extraction Language OCaml.
 Extraction "extract/ModelLang.ml"
   F64.of_bits F64.to_bits F64.fmt F64.fadd F64.fsub F64.fmul F64.fdiv F64.frem F64.fsqrt
   F64.ffloor F64.fceil F64.fround F64.fabs F64.fneg F64.to_isize F64.to_usize F64.is_int F64.flt F64.feqb
-  Lang.run_impl Lang.display.
+  Lang.run_impl Lang.display Spec.run_spec.
